@@ -80,7 +80,7 @@ add('C13', ['C13'], ['corr.registry'],
 add('C14', ['C14'], ['corr.serializer', 'corr.pipeline'],
     'Lean 4 proofs for all strings and trees: escape/read-back, idempotence, entity pass-through, serialise-then-strict-read round trip in both formats, html/xhtml read back equal',
     'Tree level full; document level PARTIAL (the format leaks into stashed HTML through md.serializer inside HtmlInlineProcessor.unescape, toc, md_in_html): checked by correspondence and search. F-C14-1 (void element with text) is a kernel-checked counterexample.')
-add('C15', ['C15'], PIPE,
+add('C15', ['C15', 'C15Inline'], PIPE,
     'Lean 4 proofs on the block model: the reference-definition recogniser accepts every title spelling, a definition adds exactly one map entry and no node, position independence, label normalisation',
     'PARTIAL: the rendering of the resolved link (inline stage) rests on correspondence where not proved.')
 add('C16', ['C16Tables', 'C16Triggers', 'C16AttrList', 'C16Fenced', 'C16BlockExt'],
